@@ -82,6 +82,17 @@ _GL_CASES = ([_gl(n, f, "quick") for f in range(8) for n in (1, 2, 3)] +
 HARNESSES = [
     _h("read_at", ["stdio_read_at"]),
     _h("write_at", ["stdio_write_at"]),
+    # bounded twins of read_at / write_at without loop contracts (plain BMC of
+    # the same harness: n <= 64, every outcome sequence of <= 4 system calls).
+    # They do not depend on the loop annotation, so a change that reshapes the
+    # retry loop (and thereby makes the unbounded proof undecided) is still
+    # checked against the same named obligations.
+    dict(name="read_at_bmc", file="read_at.c", label="bounded(n <= 64, syscalls <= 4)",
+         solver="cadical", timeout=300, unwind=5,
+         defines={"RD_MAX": 64, "C12_MAX_CALLS": 4}),
+    dict(name="write_at_bmc", file="write_at.c", label="bounded(n <= 64, syscalls <= 4)",
+         solver="cadical", timeout=300, unwind=5,
+         defines={"WR_MAX": 64, "C12_MAX_CALLS": 4}),
     _h("write_all", ["write_all"]),
     _h("precache", ["precache"], timeout=150),
     _h("get_buffered", ["precache"], timeout=150),
